@@ -311,8 +311,13 @@ func mapRangeShape(fn *ssa.Function, r *ssa.Range) (string, string) {
 	for _, b := range fn.Blocks {
 		for _, in := range b.Instrs {
 			if c, ok := in.(*ssa.Call); ok {
-				if sc := c.Call.StaticCallee(); sc != nil && sc.Pkg != nil && (sc.Pkg.Pkg.Path() == "sort" || sc.Pkg.Pkg.Path() == "slices") && strings.HasPrefix(sc.Name(), "S") && c.Pos() > r.Pos() {
-					sorted = true
+				// only the natural total orders count: a comparator (sort.Slice, sort.Sort, slices.SortFunc) may
+				// leave ties, which then fall back to the iteration order
+				if sc := c.Call.StaticCallee(); sc != nil && sc.Pkg != nil && c.Pos() > r.Pos() {
+					switch sc.Pkg.Pkg.Path() + "." + sc.Name() {
+					case "sort.Strings", "sort.Ints", "sort.Float64s", "slices.Sort":
+						sorted = true
+					}
 				}
 			}
 		}
